@@ -68,28 +68,33 @@ type PathResult struct {
 }
 
 type Exec struct {
-	W         *World
-	sol       *Solver
-	harness   string
-	prefix    []int
-	pos       int
-	decisions []int
-	res       *PathResult
-	pc        []*Term
-	globals   map[*ssa.Global]*Obj
-	symN      map[string]int
-	syms      []*Term // harness-visible symbols (for models)
-	frames    []*Frame
-	steps     int
-	state     *State
-	cfg       *HarnessCfg
-	objN      int
-	u64memo   map[string]*Term
-	extra     map[string]any
-	inits     []initRec
-	symPtrs   map[string]Ptr
-	curModel  string
-	knownAtoms map[string]bool
+	W                       *World
+	sol                     *Solver
+	harness                 string
+	prefix                  []int
+	pos                     int
+	decisions               []int
+	res                     *PathResult
+	pc                      []*Term
+	globals                 map[*ssa.Global]*Obj
+	symN                    map[string]int
+	oracleN                 map[string]int
+	envMode                 int // 0 off, 1 recording, 2 replaying (self-composition)
+	envLog                  map[string]*Term
+	envSymN, envAfter       map[string]int
+	envExtra, envAfterExtra map[string]any
+	syms                    []*Term // harness-visible symbols (for models)
+	frames                  []*Frame
+	steps                   int
+	state                   *State
+	cfg                     *HarnessCfg
+	objN                    int
+	u64memo                 map[string]*Term
+	extra                   map[string]any
+	inits                   []initRec
+	symPtrs                 map[string]Ptr
+	curModel                string
+	knownAtoms              map[string]bool
 }
 
 func (e *Exec) end(status, why string) {
@@ -286,15 +291,90 @@ func (e *Exec) decideIndex(t *Term, n int) int {
 }
 
 func (e *Exec) fresh(name string, s Sort) *Term {
-	e.symN[name]++
-	n := e.symN[name]
+	ctr := e.symN
+	oracle := strings.HasPrefix(name, "oracle.")
+	if oracle {
+		// runtime oracles (map iteration order, wall clock, randomness) are never replayed: each use is a new symbol
+		if e.oracleN == nil {
+			e.oracleN = map[string]int{}
+		}
+		ctr = e.oracleN
+	}
+	ctr[name]++
+	n := ctr[name]
 	full := name
 	if n > 1 {
 		full = fmt.Sprintf("%s#%d", name, n)
 	}
+	if !oracle && e.envMode == 2 {
+		if t, ok := e.envLog[full]; ok && t.S == s {
+			return t // self-composition: the environment answers the second execution as it answered the first
+		}
+	}
 	t := Sym(full, s)
 	e.syms = append(e.syms, t)
+	if !oracle && e.envMode != 0 {
+		e.envLog[full] = t
+	}
 	return t
+}
+
+// envBegin/envReplay/envEnd bracket the two executions of a self-composition harness: symbols that stand for
+// the (deterministic) environment — stub outcomes, decoded values, havocked state — are the same in both.
+func (e *Exec) envBegin() {
+	e.envMode, e.envLog = 1, map[string]*Term{}
+	e.envSymN = map[string]int{}
+	for k, v := range e.symN {
+		e.envSymN[k] = v
+	}
+	e.envExtra = map[string]any{}
+	for k, v := range e.extra {
+		if strings.HasPrefix(k, "n:") {
+			e.envExtra[k] = v
+		}
+	}
+}
+
+func (e *Exec) envReplay() {
+	if e.envMode == 2 {
+		e.envEnd()
+		e.envMode = 1
+	}
+	if e.envMode != 1 {
+		e.unsupported("verifEnvReplay without verifEnvBegin")
+	}
+	e.envMode = 2
+	e.envAfter = e.symN
+	e.symN = map[string]int{}
+	for k, v := range e.envSymN {
+		e.symN[k] = v
+	}
+	e.envAfterExtra = map[string]any{}
+	for k, v := range e.extra {
+		if strings.HasPrefix(k, "n:") {
+			e.envAfterExtra[k] = v
+			delete(e.extra, k)
+		}
+	}
+	for k, v := range e.envExtra {
+		e.extra[k] = v
+	}
+}
+
+func (e *Exec) envEnd() {
+	if e.envMode == 2 {
+		for k, v := range e.envAfter {
+			if e.symN[k] < v {
+				e.symN[k] = v
+			}
+		}
+		for k, v := range e.envAfterExtra {
+			if cur, _ := e.extra[k].(int); cur < v.(int) {
+				e.extra[k] = v
+			}
+		}
+	}
+	e.envMode = 0
 }
 
 func (e *Exec) newObj(v Value, name string) *Obj {
